@@ -76,7 +76,7 @@ impl Distribution1D for Binomial {
 
 pub fn binomial_inversion(n: u64, p: f64) -> u64 {
     let s = p / (1. - p);
-    let a = ((n + 1) as f64) * s;
+    let a = (n as f64 + 1.) * s;
     let mut r = (1. - p).powf(n as f64);
     let mut u = alea::f64();
     let mut x: u64 = 0;
